@@ -372,6 +372,7 @@ def _float_from(ex, st, args, n):
     o = ex.fresh('newfloat', B64)
     c = Ctx(ex, {}, st)
     st.assume(z3.And(o != 0, c.valid(o, 24), py_type(c, st, o) == ex.global_addr('PyFloat_Type'),
+                     z3.Not(is_long(c, st, o)),          # (float is not a subclass of int)
                      float_val(o) == args[0]))
     return o
 
@@ -426,6 +427,7 @@ class _ConvTo(Contract):
             ('float/double: returns a float object with the stored value (widened exactly)',
              z3.Implies(self.is_float(c),
                         z3.And(r != 0, float_val(r) == stored_float(c, c.old, c['data'], size),
+                               py_type(c, c.new, r) == c.ex.global_addr('PyFloat_Type'), z3.Not(is_long(c, c.new, r)),
                                c.new.err == c.old.err))),
         ]
 
